@@ -1,6 +1,7 @@
 import Ts.Model.Crc
 import Ts.Spec.CrcSpec
 import Ts.Lemmas.C04
+import Ts.Model.App
 /-!
 # C04 (checksum half) — `sum32` is exactly the CRC-32 of ISO/IEC 13818-1 Annex A
 
@@ -59,6 +60,13 @@ theorem sum32_never_panics (d : Bytes) : (Ts.Crc.sum32 d).isOk = true := by
 theorem crc_lt (d : Bytes) : crc d < 2^32 := by
   have := crcFrom_lt preset d (by decide)
   rw [M_eq] at this; exact this
+
+/-- transport between the model and the spec for the "sums to zero" test used by the section gate -/
+theorem sum32_zero_iff (d : Bytes) : Ts.Crc.sum32 d = .ok 0 ↔ crc d = 0 := by
+  rw [sum32_eq_bitserial]
+  constructor
+  · intro h; injection h
+  · intro h; rw [h]
 
 /-! ### a section followed by its CRC sums to zero -/
 
@@ -230,7 +238,101 @@ example : crc (xorBytes patSection [0, 0, 0, 0xff, 0, 0, 0x81, 0, 0, 0, 0, 0, 0,
   decide +kernel
 example : crc (flipBit (flipBit patSection 0) 127) ≠ 0 :=
   detect_double_bit_flip patSection 0 127 (by decide) (by decide) (by decide) (by decide +kernel)
+/-- the bound 32 is sharp: the generator itself, a 33-bit pattern, is undetected -/
+example : crc0 [0x82, 0x60, 0x8e, 0xdb, 0x80] = 0 := by decide +kernel
 /-- the window hypothesis is satisfiable: `singleBit 16 37` has exactly one set bit -/
 example : bitAt (singleBit 16 37) 37 = 1 ∧ bitAt (singleBit 16 37) 36 = 0 := by decide +kernel
+
+/-! ## The gate: PAT / PMT processing acts only on sections whose CRC verifies
+
+`App.runDeliveries` is the only path from reassembled sections to `PatProcessor::new_table` /
+`PmtProcessor::new_table` (handler requests, queued insertions / removals, `filters_registered`).
+With the CRC check compiled in (`bypassCrc = false`, i.e. not `cfg(fuzzing)`) a section reaches
+the table processor only if `sum32` of the whole section is zero. -/
+section Gate
+open Ts.App Ts.Psi
+
+/-- the CRC layer passes a section iff it is long enough and sums to zero -/
+theorem crcPass_iff (data : Bytes) (hs : byteD data 1 &&& 0b1000_0000 ≠ 0) (hl : 2 ≤ data.length) :
+    Psi.crcPass false data = .ok (decide (12 ≤ data.length ∧ crc data = 0)) := by
+  unfold Psi.crcPass
+  rw [byteAt_ok data 1 (by omega)]
+  have : (byteD data 1 &&& 0b1000_0000 != 0) = true := by simp [hs]
+  simp only [R.ok_bind, assertR, this, if_true, Psi.COMMON, Psi.TSH]
+  by_cases h12 : data.length < 3 + 5 + 4
+  · have : ¬ 12 ≤ data.length := by omega
+    simp [h12, this]
+  · have h12' : 12 ≤ data.length := by omega
+    simp only [h12, if_false, Bool.false_eq_true]
+    rw [sum32_eq_bitserial]
+    simp only [R.ok_bind, R.pure_eq]
+    congr 1
+    simp [h12']
+    by_cases hz : crc data = 0 <;> simp [hz]
+
+/-- sections that fail the CRC are invisible to the table processor: the run over all deliveries
+equals the run over the verified ones only -/
+theorem gate_filters (sect : Ctx → List Nat → Bytes → R (Ctx × List Nat × List (Demux.Change Handler)))
+    (c : Ctx) (reg : List Nat) (hb : c.cfg.bypassCrc = false)
+    (hcfg : ∀ c' r d c'' r'' ch, sect c' r d = .ok (c'', r'', ch) → c''.cfg = c'.cfg) :
+    ∀ (ds : List Delivery),
+      (∀ d ∈ ds, byteD d.bytes 1 &&& 0b1000_0000 ≠ 0 ∧ 2 ≤ d.bytes.length) →
+      runDeliveries sect c reg ds =
+        runDeliveries sect c reg (ds.filter (fun d => decide (12 ≤ d.bytes.length ∧ crc d.bytes = 0))) := by
+  intro ds
+  induction ds generalizing c reg with
+  | nil => intro _; rfl
+  | cons d ds ih =>
+    intro h
+    have hd := h d (List.mem_cons_self ..)
+    have hrest : ∀ d' ∈ ds, byteD d'.bytes 1 &&& 0b1000_0000 ≠ 0 ∧ 2 ≤ d'.bytes.length :=
+      fun d' hm => h d' (List.mem_cons_of_mem _ hm)
+    by_cases hp : (12 ≤ d.bytes.length ∧ crc d.bytes = 0)
+    · have hf : (d :: ds).filter (fun d => decide (12 ≤ d.bytes.length ∧ crc d.bytes = 0))
+          = d :: ds.filter (fun d => decide (12 ≤ d.bytes.length ∧ crc d.bytes = 0)) := by
+        simp [hp]
+      rw [hf]
+      simp only [runDeliveries, hb, crcPass_iff d.bytes hd.1 hd.2, hp, and_self, decide_true,
+        R.ok_bind, if_true]
+      cases hs : sect c reg d.bytes with
+      | panic s => rfl
+      | ok v =>
+        obtain ⟨c1, reg1, chg1⟩ := v
+        have hc1 : c1.cfg.bypassCrc = false := by rw [hcfg _ _ _ _ _ _ hs]; exact hb
+        simp only [R.ok_bind]
+        rw [ih c1 reg1 hc1 hrest]
+    · have hf : (d :: ds).filter (fun d => decide (12 ≤ d.bytes.length ∧ crc d.bytes = 0))
+          = ds.filter (fun d => decide (12 ≤ d.bytes.length ∧ crc d.bytes = 0)) := by
+        simp [hp]
+      rw [hf]
+      simp only [runDeliveries, hb, crcPass_iff d.bytes hd.1 hd.2, hp, decide_false,
+        R.ok_bind, Bool.false_eq_true, if_false]
+      exact ih c reg hb hrest
+
+/-- **No section whose CRC fails to verify ever causes a handler to be requested, replaced or
+removed**: if every delivered section fails the check, the context (trace of `construct`
+requests, tag counter), the registered set and the change queue are all untouched. -/
+theorem gate_blocks (sect : Ctx → List Nat → Bytes → R (Ctx × List Nat × List (Demux.Change Handler)))
+    (c : Ctx) (reg : List Nat) (hb : c.cfg.bypassCrc = false) :
+    ∀ (ds : List Delivery),
+      (∀ d ∈ ds, byteD d.bytes 1 &&& 0b1000_0000 ≠ 0 ∧ 2 ≤ d.bytes.length ∧ crc d.bytes ≠ 0) →
+      runDeliveries sect c reg ds = .ok (c, reg, []) := by
+  intro ds
+  induction ds with
+  | nil => intro _; rfl
+  | cons d ds ih =>
+    intro h
+    have hd := h d (List.mem_cons_self ..)
+    have hp : ¬ (12 ≤ d.bytes.length ∧ crc d.bytes = 0) := fun hh => hd.2.2 hh.2
+    simp only [runDeliveries, hb, crcPass_iff d.bytes hd.1 hd.2.1, hp, decide_false, R.ok_bind,
+      Bool.false_eq_true, if_false]
+    exact ih (fun d' hm => h d' (List.mem_cons_of_mem _ hm))
+
+/-- every single-bit corruption of a verified section is blocked by the gate (combines
+`detect_single_bit_flip` with `gate_blocks`) -/
+theorem corrupted_section_blocked (m : Bytes) (p : Nat) (hm : crc m = 0) (hp : p < 8 * m.length) :
+    crc (flipBit m p) ≠ 0 := detect_single_bit_flip m p hp hm
+
+end Gate
 
 end Ts.Props.C04
